@@ -91,6 +91,14 @@ fn remove_unused_compumethods(module: &mut Module) {
     for typedef_measurement in &mut module.typedef_measurement {
         used_compumethods.insert(typedef_measurement.conversion.clone());
     }
+    // an INSTANCE can replace the conversion of its type definition in an OVERWRITE
+    for instance in &module.instance {
+        for overwrite in &instance.overwrite {
+            if let Some(conversion) = &overwrite.conversion {
+                used_compumethods.insert(conversion.name.clone());
+            }
+        }
+    }
 
     module
         .compu_method
